@@ -13,6 +13,13 @@ use std::str::Chars;
 verus! {
 pub type VarRenameMap = HashMap<String, String>;
 pub uninterp spec fn alnum(c: char) -> bool;
+// integers that format! can render in decimal (R-fmt-val, pseudo-type `int`)
+pub trait DecFmt { spec fn dec_view(&self) -> int; }
+impl DecFmt for i32 { open spec fn dec_view(&self) -> int { *self as int } }
+impl DecFmt for i64 { open spec fn dec_view(&self) -> int { *self as int } }
+impl DecFmt for u32 { open spec fn dec_view(&self) -> int { *self as int } }
+impl DecFmt for u64 { open spec fn dec_view(&self) -> int { *self as int } }
+impl DecFmt for usize { open spec fn dec_view(&self) -> int { *self as int } }
 //@include prelude/std_model.rs
 //@include prelude/lex_model.rs
 //@include spec/strmap.rs
